@@ -1,6 +1,7 @@
 package engine
 
 import (
+	"strings"
 	"fmt"
 	"go/constant"
 	"go/token"
@@ -117,10 +118,16 @@ func (e *Engine) forkCallee(fr *frame, in ssa.Instruction) *ssa.Function {
 		return nil
 	}
 	fn := c.Common().StaticCallee()
-	if fn == nil || fn.Blocks == nil || !e.Cfg.ForkFuncs[fn.Name()] || len(fn.FreeVars) > 0 {
+	if fn == nil || fn.Blocks == nil || !e.isFork(fn) || len(fn.FreeVars) > 0 {
 		return nil
 	}
 	if _, stubbed := e.Cfg.Intrinsics[fn.String()]; stubbed {
+		return nil
+	}
+	if _, stubbed := builtinIntrinsics[fn.String()]; stubbed {
+		return nil
+	}
+	if _, stubbed := verifIntrinsics[fn.Name()]; stubbed && strings.HasPrefix(fn.Name(), "verif") {
 		return nil
 	}
 	return fn
@@ -205,6 +212,31 @@ func (e *Engine) execBlockFrom(fr *frame, b *ssa.BasicBlock, start int, st *St, 
 							e.execBlockFrom(fr, b, idx, cont, deliver)
 						}
 						return
+					}
+				}
+			}
+		}
+		if rg, isRange := in.(*ssa.Range); isRange && fr.forkMode && e.booting == 0 && e.permMode(st) == 1 {
+			// "one range over a map visits its entries in another order" (armed by the harness):
+			// this execution of the range statement is the permuted one on the forked paths (one
+			// per order tried), and stays in natural order on the path that continues here
+			if mv, ok := e.val(st, rg.X).(*MapV); ok {
+				mc, _ := e.mapContent(st, mv)
+				n, concrete := len(mc.E), true
+				for _, en := range mc.E {
+					if !en.P.IsTrue() {
+						concrete = false
+					}
+				}
+				if n >= 2 && concrete {
+					for _, perm := range mapOrders(n) {
+						cont := st.fork()
+						e.splits++
+						cont.heap.set(permObj, e.c64(2))
+						pos := e.newObj(cont.heap, e.c64(0))
+						cont.env[rg] = &IterV{Map: mc, Pos: pos, Perm: perm}
+						e.PermutedRanges++
+						e.execBlockFrom(fr, b, idx+1, cont, deliver)
 					}
 				}
 			}
@@ -929,4 +961,66 @@ func (e *Engine) stringToRunes(st *St, s *SliceV) *SliceV {
 	}
 	id := e.newObj(st.heap, &ArrayV{E: cells})
 	return &SliceV{Base: e.ptrTo(id), Off: e.c64(0), Len: count, Cap: count}
+}
+
+// permObj: per-path mode of the "one permuted map range" device (0 off, 1 armed, 2 used).
+const permObj ObjID = -3
+
+func (e *Engine) permMode(st *St) int {
+	if v, ok := st.heap.lookup(permObj); ok {
+		if t, ok := v.(*T); ok && t.IsConst() {
+			return int(t.Val)
+		}
+	}
+	return 0
+}
+
+// mapOrders lists the visiting orders tried for a map of n entries besides the natural one:
+// every order for n <= 4; for larger maps the reversal, the two rotations by one and the swaps
+// of the first two and of the last two entries.
+func mapOrders(n int) [][]int {
+	id := make([]int, n)
+	for i := range id {
+		id[i] = i
+	}
+	var out [][]int
+	if n <= 4 {
+		var gen func(cur []int, used []bool)
+		gen = func(cur []int, used []bool) {
+			if len(cur) == n {
+				same := true
+				for i, x := range cur {
+					if x != i {
+						same = false
+					}
+				}
+				if !same {
+					out = append(out, append([]int{}, cur...))
+				}
+				return
+			}
+			for i := 0; i < n; i++ {
+				if !used[i] {
+					used[i] = true
+					gen(append(cur, i), used)
+					used[i] = false
+				}
+			}
+		}
+		gen(nil, make([]bool, n))
+		return out
+	}
+	rev := make([]int, n)
+	rotl := make([]int, n)
+	rotr := make([]int, n)
+	for i := 0; i < n; i++ {
+		rev[i] = n - 1 - i
+		rotl[i] = (i + 1) % n
+		rotr[i] = (i + n - 1) % n
+	}
+	sw0 := append([]int{}, id...)
+	sw0[0], sw0[1] = 1, 0
+	sw1 := append([]int{}, id...)
+	sw1[n-1], sw1[n-2] = n-2, n-1
+	return [][]int{rev, rotl, rotr, sw0, sw1}
 }
